@@ -403,6 +403,7 @@ func checkC09(c *Ctx) {
 	}
 	checkC09Round2(c)
 	checkC09Round4(c)
+	checkStaleTriple(c, "C09.stale-cursor")
 }
 
 func isLenCall(v ssa.Value) bool {
